@@ -1,9 +1,11 @@
 /-
 Translated Python (`BtcHd.Code`, generated from /repo by harness/translate.py) = hand-written model:
-`helper.py` `int_to_little_endian` and `encode_varint`.
+`helper.py` `int_to_little_endian`, `encode_varint`, `read_exact`, `read_varint` and `script.py` `Script.raw_serialize`,
+`Script.serialize`, `Script.parse` — the whole wire format of C19.
 -/
 import BtcHd.Generated.Code
 import BtcHd.Model.Varint
+import BtcHd.Model.Script
 
 namespace BtcHd.Translated
 open BtcHd
@@ -25,6 +27,197 @@ theorem encodeVarint_eq (i : Nat) : Code.encode_varint i = Varint.encodeVarint i
   simp only [e1, e2, e4, e8]
   repeat' split
   all_goals first | rfl | omega
+
+section script
+open BtcHd.Varint BtcHd.Script
+
+/-- The translated `read_exact` (on the list of unread bytes, returning the rest) is the model's `readExact`. -/
+theorem read_exact_eq (s : Bytes) (n : Nat) : Code.read_exact s n = readExact s n := by
+  unfold Code.read_exact readExact
+  simp only []
+  by_cases h : n ≤ s.length
+  · have : (s.take n).length = n := by simp [List.length_take, h]
+    simp [h, this]
+  · have : (s.take n).length ≠ n := by rw [List.length_take]; omega
+    simp only [h, if_false]
+    rw [if_pos (by simpa using this)]
+    rfl
+
+/-- The translated `read_varint` is the model's `readVarint`: a truncated varint is `none`. -/
+theorem read_varint_eq (s : Bytes) : Code.read_varint s = readVarint s := by
+  unfold Code.read_varint readVarint
+  simp only [read_exact_eq, Code.little_endian_to_int, Id.run_pure]
+  cases s with
+  | nil => rfl
+  | cons i rest =>
+    have h1 : readExact (i :: rest) 1 = some ([i], rest) := by simp [readExact]
+    simp only [h1, Option.bind_eq_bind, Option.bind_some, List.getElem!_cons_zero]
+    have t : ∀ k : Nat, k < 256 → (i.toNat = k ↔ i = UInt8.ofNat k) := by
+      intro k hk
+      constructor
+      · intro h; apply UInt8.toNat_inj.mp; simp [h, Nat.mod_eq_of_lt hk]
+      · intro h; simp [h, Nat.mod_eq_of_lt hk]
+    have t253 : (i.toNat = 253) ↔ i = 253 := t 253 (by decide)
+    have t254 : (i.toNat = 254) ↔ i = 254 := t 254 (by decide)
+    have t255 : (i.toNat = 255) ↔ i = 255 := t 255 (by decide)
+    simp only [t253, t254, t255]
+    have m : ∀ k, ((readExact rest k).bind fun __x => (pure (leToNat __x.fst, __x.snd) : Option _)) =
+        Option.map (fun x => (leToNat x.fst, x.snd)) (readExact rest k) := by
+      intro k; cases readExact rest k <;> rfl
+    simp only [m]
+    rfl
+
+
+theorem forIn_append_option {α : Type} (g : α → Option Bytes) (l : List α) (acc : Bytes)
+    (ser : List α → Option Bytes) (h0 : ser [] = some [])
+    (hc : ∀ c cs, ser (c :: cs) = (g c).bind fun a => (ser cs).map (a ++ ·)) :
+    forIn (m := Option) l acc (fun c r => (g c).bind fun a => pure (ForInStep.yield (r ++ a))) =
+      (ser l).map (acc ++ ·) := by
+  induction l generalizing acc with
+  | nil => simp [h0]
+  | cons c cs ih =>
+    rw [List.forIn_cons, hc]
+    cases g c with
+    | none => rfl
+    | some a =>
+      simp only [Option.bind_eq_bind, Option.bind_some, bind_pure_comp]
+      show forIn cs (acc ++ a) _ = _
+      rw [ih]
+      cases ser cs <;> simp
+
+/-- The translated `Script.raw_serialize` is the model's `rawSerialize`: push forms at 75/76/255/256/520, refusal above. -/
+theorem raw_serialize_eq (cmds : List Cmd) : Code.raw_serialize cmds = rawSerialize cmds := by
+  unfold Code.raw_serialize
+  simp only [int_to_little_endian_eq]
+  suffices h : ∀ F : Cmd → Bytes → Option (ForInStep Bytes),
+      (∀ c r, F c r = (serCmd c).bind fun a => pure (ForInStep.yield (r ++ a))) →
+      forIn cmds ([] : Bytes) F = rawSerialize cmds by
+    rw [bind_pure]
+    apply h
+    intro cmd r
+    cases cmd with
+    | op b => rfl
+    | data d =>
+      simp only [serCmd]
+      by_cases h1 : d.length ≤ 75
+      · have : toBytesLE 1 d.length = some (leFixed 1 d.length) := by
+          simp [toBytesLE]; omega
+        simp [h1, this, List.append_assoc]
+      · by_cases h2 : 75 < d.length ∧ d.length < 256
+        · have a1 : toBytesLE 1 d.length = some (leFixed 1 d.length) := by
+            simp [toBytesLE]; omega
+          have a2 : toBytesLE 1 76 = some [76] := by decide
+          simp [h1, h2, a1, a2, List.append_assoc]
+        · by_cases h3 : 256 ≤ d.length ∧ d.length ≤ 520
+          · have a1 : toBytesLE 2 d.length = some (leFixed 2 d.length) := by
+              simp [toBytesLE]; omega
+            have a2 : toBytesLE 1 77 = some [77] := by decide
+            simp [h1, h2, h3, a1, a2, List.append_assoc]
+          · simp [h1, h2, h3]
+  intro F hF
+  have : F = fun c r => (serCmd c).bind fun a => pure (ForInStep.yield (r ++ a)) := by
+    funext c r; exact hF c r
+  rw [this, forIn_append_option serCmd cmds [] rawSerialize rfl (fun c cs => rfl)]
+  cases rawSerialize cmds <;> simp
+
+/-- The translated `Script.serialize` is the model's `serialize`. -/
+theorem serialize_eq (cmds : List Cmd) : Code.serialize cmds = Script.serialize cmds := by
+  unfold Code.serialize Script.serialize
+  simp only [raw_serialize_eq, encodeVarint_eq]
+  cases rawSerialize cmds with
+  | none => rfl
+  | some raw =>
+    simp only [Option.bind_eq_bind, Option.bind_some]
+    cases encodeVarint raw.length <;> rfl
+
+/-- the `while count < length` loop as translated (state = stream, commands so far, count) against `parseLoop` -/
+theorem forIn_parseLoop {α : Type} (length : Nat) (l : List α) (st : Bytes × List Cmd × Nat) :
+    forIn (m := Option) l st (fun _ st =>
+      if ¬ st.2.2 < length then pure (ForInStep.done st)
+      else (parseOne st.1).bind fun r => pure (ForInStep.yield (r.2.2, st.2.1 ++ [r.1], st.2.2 + r.2.1))) =
+    (parseLoop l.length length st.2.2 st.1).map fun r => (r.2.2, st.2.1 ++ r.1, r.2.1) := by
+  induction l generalizing st with
+  | nil => simp [parseLoop]
+  | cons a l ih =>
+    rw [List.forIn_cons]
+    simp only [List.length_cons, parseLoop]
+    by_cases hc : st.2.2 < length
+    · simp only [hc, not_true_eq_false, if_false, if_true]
+      cases parseOne st.1 with
+      | none => rfl
+      | some r =>
+        simp only [Option.bind_eq_bind, Option.bind_some, bind_pure_comp]
+        show forIn l (r.2.2, st.2.1 ++ [r.1], st.2.2 + r.2.1) _ = _
+        rw [ih]
+        cases parseLoop l.length length (st.2.2 + r.2.1) r.2.2 <;> simp
+    · simp [hc]
+
+theorem getElem!_take_one (rest : Bytes) (cur : UInt8) : (List.take 1 (cur :: rest))[0]! = cur := by simp
+
+/-- The translated `Script.parse` (state passing for the stream, `while` loop with fuel = unread bytes + 1) is the
+model's `parse`, on every byte string. -/
+theorem script_parse_eq (s : Bytes) : Code.script_parse s = Script.parse s := by
+  unfold Code.script_parse Script.parse
+  simp only [read_varint_eq, read_exact_eq, Code.little_endian_to_int, Id.run_pure]
+  cases readVarint s with
+  | none => rfl
+  | some lv =>
+    obtain ⟨length, body⟩ := lv
+    simp only [Option.bind_eq_bind, Option.bind_some]
+    suffices h : ∀ F : Nat → Bytes × List Cmd × Nat → Option (ForInStep (Bytes × List Cmd × Nat)),
+        (∀ x st, F x st = if ¬ st.2.2 < length then pure (ForInStep.done st)
+          else (parseOne st.1).bind fun r => pure (ForInStep.yield (r.2.2, st.2.1 ++ [r.1], st.2.2 + r.2.1))) →
+        ((forIn (List.range (body.length + 1)) (body, ([] : List Cmd), 0) F).bind fun __s =>
+            if __s.2.2 ≠ length then (none : Option Unit).bind fun _ => pure (__s.2.1, __s.1)
+            else pure (__s.2.1, __s.1)) =
+          (parseLoop (body.length + 1) length 0 body).bind fun x =>
+            if x.2.1 = length then some (x.1, x.2.2) else none by
+      apply h
+      intro x st
+      by_cases hc : st.2.2 < length
+      · simp only [hc, not_true_eq_false, if_false]
+        cases hs : st.1 with
+        | nil => simp [readExact, parseOne]
+        | cons cur rest =>
+          have h1 : readExact (cur :: rest) 1 = some ([cur], rest) := by simp [readExact]
+          simp only [h1, Option.bind_eq_bind, Option.bind_some, List.getElem!_cons_zero, parseOne]
+          by_cases c1 : 1 ≤ cur.toNat ∧ cur.toNat ≤ 75
+          · simp only [c1, and_self, if_true]
+            cases readExact rest cur.toNat <;> simp [Nat.add_assoc]
+          · simp only [c1, if_false]
+            by_cases c2 : cur.toNat = 76
+            · simp only [c2, if_true]
+              cases readExact rest 1 with
+              | none => rfl
+              | some l1 =>
+                simp only [Option.bind_some]
+                cases readExact l1.2 (leToNat l1.1) <;> simp [Nat.add_assoc, Nat.add_comm, Nat.add_left_comm]
+            · simp only [c2, if_false]
+              by_cases c3 : cur.toNat = 77
+              · simp only [c3, if_true]
+                cases readExact rest 2 with
+                | none => rfl
+                | some l1 =>
+                  simp only [Option.bind_some]
+                  cases readExact l1.2 (leToNat l1.1) <;> simp [Nat.add_assoc, Nat.add_comm, Nat.add_left_comm]
+              · simp [c3]
+      · simp [hc]
+    intro F hF
+    have : F = fun _ st => if ¬ st.2.2 < length then pure (ForInStep.done st)
+        else (parseOne st.1).bind fun r => pure (ForInStep.yield (r.2.2, st.2.1 ++ [r.1], st.2.2 + r.2.1)) := by
+      funext x st; exact hF x st
+    rw [this, forIn_parseLoop, List.length_range]
+    cases parseLoop (body.length + 1) length 0 body with
+    | none => rfl
+    | some r =>
+      simp only [Option.map_some, Option.bind_some, List.nil_append]
+      by_cases hl : r.2.1 = length <;> simp [hl]
+
+end script
+
+example : Code.script_parse [3, 0x4d, 0] = none := by decide +kernel
+example : Code.script_parse [2, 1, 7, 9] = some ([.data [7]], [9]) := by decide +kernel
+example : Code.serialize [.op 0xac, .data [1, 2]] = some [4, 0xac, 2, 1, 2] := by decide +kernel
 
 example : Code.encode_varint 252 = some [252] := by decide +kernel
 example : Code.encode_varint 253 = some [253, 253, 0] := by decide +kernel
